@@ -411,6 +411,23 @@ func c20Machine(t *rapid.T, report func(msg string, log []string)) {
 			w.sets[si].set.Debug = w.sets[si].debug
 			w.logf("set%d.Debug=%v", si, w.sets[si].debug)
 		},
+		"TouchOptions": func(t *rapid.T) {
+			// options that do not show in these templates (nothing stands in front of a block tag):
+			// changing them on the set, or on a template the cache handed out, is no reason to load
+			// anything again
+			si := pickSet()
+			s := w.sets[si]
+			if drawBool(t, "onset") {
+				s.set.Options.LStripBlocks = !s.set.Options.LStripBlocks
+				w.logf("set%d.Options.LStripBlocks=%v", si, s.set.Options.LStripBlocks)
+				return
+			}
+			n := pickName()
+			if tpl, ok := s.cache[n]; ok {
+				tpl.Options.LStripBlocks = !tpl.Options.LStripBlocks
+				w.logf("set%d: cached %s .Options.LStripBlocks=%v", si, n, tpl.Options.LStripBlocks)
+			}
+		},
 		"ChangeContent": func(t *rapid.T) {
 			n := pickName()
 			w.gens[n]++
@@ -536,7 +553,7 @@ type c20Dummy struct {
 
 var c20Spec = register(&propSpec{
 	ID:   "C20.cache",
-	Rule: "rapid state machine over 1-2 template sets (own recording loader, globals, TrimBlocks option, set 0 bans a filter) x 3 names addressed through aliases that resolve to the same file: FromCache, CleanCache(), CleanCache(names), toggle Debug, RenderTemplateString/Bytes/File (this set's globals, options, bans, loader), change content, make a file unloadable/restore, k=2-16 goroutines issuing the same FromCache behind a barrier (exact oracle: one fetch, one instance), mixed FromCache/CleanCache batches (order-independent bounds); after every step every entry the model holds must still be served without a fetch in every set. Compared with a map model incl. loader fetch counts and rendered content generation. Non-trivial: FromCache after a clean / failed load, or a concurrent batch; distinct by operation log.",
+	Rule: "rapid state machine over 1-2 template sets (own recording loader, globals, TrimBlocks option, set 0 bans a filter) x 3 names addressed through aliases that resolve to the same file: FromCache, CleanCache(), CleanCache(names), toggle Debug, touch an option on the set or on a cached template, RenderTemplateString/Bytes/File (this set's globals, options, bans, loader), change content, make a file unloadable/restore, k=2-16 goroutines issuing the same FromCache behind a barrier (exact oracle: one fetch, one instance), mixed FromCache/CleanCache batches (order-independent bounds); after every step every entry the model holds must still be served without a fetch in every set. Compared with a map model incl. loader fetch counts and rendered content generation. Non-trivial: FromCache after a clean / failed load, or a concurrent batch; distinct by operation log.",
 	New:  func() any { return &c20Dummy{} },
 	Check: func(c any, r *Rec) error {
 		return skipf("histories are replayed through rapid's fail file, not through a descriptor")
